@@ -242,11 +242,12 @@ func (u *Unreliable) WriteMsgUDP(b, oob []byte, addr *net.UDPAddr) (n, oobn int,
 		return 0, 0, io.EOF
 	}
 
-	dataLength := uint16(len(b))
-	if uint16(len(b)) > MaxFrameDataLength {
+	// Compare before converting: uint16(len(b)) wraps for len(b) >= 65536.
+	if len(b) > int(MaxFrameDataLength) {
 		err = transport.ErrBufOverflow
 		return n, oobn, err
 	}
+	dataLength := uint16(len(b))
 
 	pkt := frame{
 		tubeID: u.id,
